@@ -36,7 +36,14 @@ LEVEL_NOTE = ("Determinism is a property of the runtime: half (B) is sampling, n
               "path cost + pinEdgeExtra (Model/PinCone.lean: max(0.001, connectionCost + portDirectionPenalty unless target - pin lies in a cone of the pin's directions)) of the pin the vertex path leaves through; "
               "which pin is chosen is only counted (equal-cost pins are legitimate alternatives). Not generated there, because the unchanged library is frame- or even run-dependent (reported): buffer 0 with pins "
               "(another connector may run along the shape edge through a pin in some orientations only); two pins at one position; an EXCLUSIVE class with >= 2 connectors (who gets which pin is decided with ties "
-              "between pin edges broken by EdgeInf ADDRESSES in CmpVisEdgeRotation: per-connector costs differ between identical runs); for the same reason pin classes are not in the exact-translation classes.")
+              "between pin edges broken by EdgeInf ADDRESSES in CmpVisEdgeRotation: per-connector costs differ between identical runs); for the same reason pin classes were not in the exact-translation classes. "
+              "That defect is repaired (/repo 992d05a: dummy pin edges ordered by endpoint positions); since then pin classes — exclusive ones serving several connectors included — ARE in the exact classes: "
+              "route-twice on *-params scenes (own index range, 300 quick / 1200 thorough: same calls twice, heap scrambled, routes + display routes + A* vertex paths, i.e. the chosen pins, bit-identical) and "
+              "route-translate[-orth] (raw routes exact). The cost-judged symmetry class keeps one connector per exclusive class (pins are handed out greedily in connector order). "
+              "The crossing-penalty stage is switched off in the run-twice params class: Router::improveCrossings keeps crossing connectors in a std::map<ConnRef*, std::set<ConnRef*>> and "
+              "removeConnectorWithMostCrossings breaks ties by iteration (= address) order, so which connector is rerouted is not reproducible (about 1 scene in 5000; harness --mode twice-xstage switches it on). "
+              "CmpVisEdgeRotation itself is hand-modelled (Model/RouteCost.lean cmpVisEdge; the translator has no std::pair locals) — Props/C20Tie: strict weak order among dummy edges, dummy before orthogonal, "
+              "address decides only when both endpoint pairs are equal; ptLt = the regenerated Point::operator<; the model is not tied to the source otherwise than by the run-twice class.")
 TECHNIQUE = "Lean 4 invariance/uniqueness theorems (logic half) + run-twice / frame-change differential harness decided by an exact Lean driver (runtime half)"
 DESIGN_REF = "DESIGN.md section 6 C20"
 RULE = ("12 generator slots per round (250 rounds quick, 1200 thorough): route-twice polyline, route-twice orthogonal, vpsc-twice, layout-twice, "
